@@ -184,10 +184,7 @@ func genTrace(thorough bool, seed int64, emit func(traceEvent)) {
 		case 'H':
 			edges := [][3]int{{2020, 1, 1}, {2020, 3, 1}, {2021, 3, 1}, {2020, 5, 1}}
 			if thorough {
-				edges = [][3]int{{2019, 1, 1}, {2019, 3, 1}, {2021, 1, 1}, {2021, 3, 1}}
-				for m := 1; m <= 12; m++ {
-					edges = append(edges, [3]int{2020, m, 1})
-				}
+				edges = [][3]int{{2019, 3, 1}, {2020, 1, 1}, {2020, 3, 1}, {2020, 5, 1}, {2020, 12, 1}, {2021, 1, 1}, {2021, 3, 1}}
 			}
 			for _, e := range edges {
 				base := hourIdx(e[0], e[1], e[2], 0) - 24
@@ -207,7 +204,7 @@ func genTrace(thorough bool, seed int64, emit func(traceEvent)) {
 			type span struct{ a, b int }
 			spans := []span{{hourIdx(2019, 12, 1, 0), hourIdx(2020, 4, 1, 0)}, {hourIdx(2021, 2, 20, 0), hourIdx(2021, 3, 5, 0)}}
 			if thorough {
-				spans = []span{{hourIdx(2019, 12, 1, 0), hourIdx(2021, 4, 1, 0)}}
+				spans = []span{{hourIdx(2019, 12, 1, 0), hourIdx(2021, 1, 1, 0)}, {hourIdx(2021, 2, 15, 0), hourIdx(2021, 3, 16, 0)}}
 			}
 			for _, s := range spans {
 				for t := s.a; t < s.b; t += 24 {
@@ -215,10 +212,10 @@ func genTrace(thorough bool, seed int64, emit func(traceEvent)) {
 				}
 			}
 			if thorough {
-				for l := 1; l <= 35; l++ {
+				for l := 1; l <= 15; l++ {
 					lens = append(lens, l)
 				}
-				lens = append(lens, 59, 60, 61, 365, 366)
+				lens = append(lens, 27, 28, 29, 30, 31, 32, 59, 60, 61, 365, 366)
 			} else {
 				lens = []int{1, 2, 7, 28, 29, 31, 32, 61}
 			}
